@@ -117,6 +117,14 @@ def check(fam, tier, seed, replay=None):
         if any(tag in u for tag in fam.uses_gen) or not fam.uses_gen:
             problems.append("extractor: " + u)
     infra = []
+    recheck = None
+    if tier == "thorough" and discharged:
+        # independent re-check of the compiled proof modules (and everything they import)
+        mods = ["AM.Proofs." + m for m in core.proof_modules(prop)]
+        rc, out = core.sh(["lake", "env", "leanchecker"] + mods, cwd=core.LEAN, timeout=1800)
+        recheck = {"cmd": "lake env leanchecker " + " ".join(mods), "rc": rc, "tail": out[-300:]}
+        if rc != 0:
+            problems.append("leanchecker rejects the compiled proof modules: " + out[-300:])
     if not st.get("driver_ok"):
         infra.append("the Lean model (amdriver) does not build against the regenerated AM/Gen: " + st["log"].get("driver", "")[-600:])
     if not st.get("harness_ok"):
@@ -164,6 +172,25 @@ def check(fam, tier, seed, replay=None):
                         recs[c["id"]] = r
                 cases += extra
                 recs.update({k: v for k, v in recs2.items() if k not in recs})
+
+    # thorough tier of the concurrent families: the same cases once more under the Go race detector
+    race = None
+    if tier == "thorough" and getattr(fam, "race", False) and not infra and not replay:
+        ok, log = core.build_race_harness()
+        if not ok:
+            infra.append("the harness does not build with -race: " + log[-300:])
+        else:
+            sub = cases[:getattr(fam, "race_cases", 60)]
+            racy = []
+            for c in sub:
+                o, rc_, err_ = core.run_lines([core.RACE_HARNESS] + list(fam.modes_for(c)[0]), [fam.harness_line(c)], timeout=600)
+                if "DATA RACE" in err_ or rc_ == 66:
+                    racy.append(c)
+                    if len(racy) >= 3:
+                        break
+            race = {"cases": len(sub), "data_races": len(racy)}
+            if racy:
+                problems.append("the Go race detector reports a data race on %d case(s); first: %s" % (len(racy), json.dumps(fam.sample(racy[0]))[:300]))
 
     # report
     lines = []
@@ -238,6 +265,11 @@ def check(fam, tier, seed, replay=None):
         "extractor_unsupported": st.get("unsupported", []),
         "distribution": fam.stats(cases, recs),
     }
+    if race:
+        cov["race_detector"] = race
+    if recheck:
+        cov["leanchecker"] = recheck
+        cov["checker_cmd"] += " && " + recheck["cmd"]
     core.write_evidence(prop, tier, seed, cov, fam.assumptions, time.time() - t0, nviol)
     for l in lines:
         print(l)
